@@ -396,7 +396,7 @@ def awaited_bound(ctx, pexpect):
     for T in (-7, -0.5, 0, 0.05, 0.3):
         for entry in ('expect', 'expect_exact', 'expect_list'):
             r, w = os.pipe()
-            c = fdpexpect.fdspawn(r, timeout=4)
+            c = fdpexpect.fdspawn(r, timeout=6)
             res = {}
 
             async def go():
@@ -428,8 +428,8 @@ def awaited_bound(ctx, pexpect):
                     except OSError:
                         pass
             tried += 1
-            if res.get('out') != 'TIMEOUT' or res['t'] > max(T, 0) + 1.0:
-                ctx.hit('C14/bound', 'awaited %s(timeout=%r) on a silent pipe (the object\'s own timeout is 4): outcome %r after %.2f s'
+            if res.get('out') != 'TIMEOUT' or res['t'] > max(T, 0) + 2.0:
+                ctx.hit('C14/bound', 'awaited %s(timeout=%r) on a silent pipe (the object\'s own timeout is 6): outcome %r after %.2f s'
                         % (entry, T, res.get('out'), res.get('t', -1)), {'timeout': T, 'entry': entry})
                 return
     ctx.oracle_stats['awaited_bound_calls'] = tried
